@@ -29,7 +29,9 @@ WindowLaw == IsRound =>
   /\ \A i \in 1..10 : (UnitIdx(O.lg) < 11 - i) => IsZero(DurFields(R)[i])
   /\ \A i \in 1..10 : (11 - i < UnitIdx(O.sm)) => IsZero(DurFields(R)[i])
 \* the rounded end point lies on the prescribed side of the exact end point
-DirectionLaw == (IsRound /\ TargetOf(last.rel, R).kind = "ok") =>
+\* (stated for reference days <= 28: at a constrained month end re-adding the rounded duration is clamped - 2020-03-31 + P1M = 04-30 - and
+\* says nothing about the side of the rounded end point, which is 05-01)
+DirectionLaw == (IsRound /\ last.rel.d <= 28 /\ TargetOf(last.rel, R).kind = "ok") =>
   LET c == CmpDT(RTgt, Tgt) * (IF Sg < 0 THEN -1 ELSE 1)     \* > 0: moved away from the reference date
       away == IF Sg < 0 THEN "floor" ELSE "ceil"
       toward == IF Sg < 0 THEN "ceil" ELSE "floor"
